@@ -67,6 +67,9 @@ PROPS = {
             {'src': 'C07.cpp', 'configs': D_GROUPS + ['R1d', 'SE3f', 'SGal3f', 'SE2f'] + ALL_BUNDLES + RAT_GROUPS,
              'cases': {'quick': 3000, 'thorough': 100000}, 'shards': {'quick': 1, 'thorough': 2},
              'case_scale': {'B_SE3_SO2_R3_SE2_SE23_r': 0.2, 'B_SGal3_SO3_r': 0.3, 'SGal3r': 0.5, 'SE_2_3r': 0.5}},
+            # the invalid-index exception must not depend on NDEBUG
+            {'src': 'C07.cpp', 'configs': ['SO2d', 'SE2d', 'SE3d', 'SGal3d', 'R3d', 'B_SE3_SO2_R3_d'], 'tag': '-ndebug', 'defs': ['-DNDEBUG'],
+             'cases': {'quick': 1500, 'thorough': 50000}, 'shards': {'quick': 1, 'thorough': 1}},
         ],
     },
     'C08': {
@@ -157,6 +160,9 @@ PROPS = {
         'stages': [
             {'src': 'C15.cpp', 'configs': D_GROUPS + ['SE2f', 'SE3f', 'B_SE3_SO2_R3_d'],
              'cases': {'quick': 5000, 'thorough': 200000}, 'shards': {'quick': 1, 'thorough': 2}},
+            # argument validation (t outside [0,1], unsupported degrees) must not depend on NDEBUG
+            {'src': 'C15.cpp', 'configs': ['SE2d', 'SO3d', 'SE3d', 'R3d', 'SE3f'], 'tag': '-ndebug', 'defs': ['-DNDEBUG'],
+             'cases': {'quick': 3000, 'thorough': 100000}, 'shards': {'quick': 1, 'thorough': 1}},
         ],
     },
     'C16': {
@@ -167,6 +173,8 @@ PROPS = {
             {'src': 'C16.cpp', 'configs': ['SO2d', 'SE2d', 'SO3d', 'SE3d', 'SE_2_3d', 'SGal3d', 'R3d', 'SE3f', 'B_SE3_SO2_R3_d'],
              'cases': {'quick': 700, 'thorough': 40000}, 'shards': {'quick': 1, 'thorough': 2},
              'case_scale': {'SGal3d': 0.5, 'B_SE3_SO2_R3_d': 0.5}},
+            {'src': 'C16.cpp', 'configs': ['SE2d', 'SO3d', 'SE3d', 'R3d'], 'tag': '-ndebug', 'defs': ['-DNDEBUG'],
+             'cases': {'quick': 400, 'thorough': 20000}, 'shards': {'quick': 1, 'thorough': 1}},
         ],
     },
     'C17': {
@@ -177,6 +185,10 @@ PROPS = {
              'defs': ['-fsanitize=address,undefined', '-fno-sanitize-recover=undefined', '-fno-omit-frame-pointer'],
              'env': {'ASAN_OPTIONS': 'hard_rss_limit_mb=4000:detect_leaks=0:allocator_may_return_null=1'},
              'cases': {'quick': 160, 'thorough': 6000}, 'shards': {'quick': 2, 'thorough': 4}, 'timeout': {'quick': 900, 'thorough': 7200}},
+            {'src': 'C17.cpp', 'configs': ['SE2d', 'SE3d'], 'tag': '-asan-ndebug',
+             'defs': ['-DNDEBUG', '-fsanitize=address,undefined', '-fno-sanitize-recover=undefined', '-fno-omit-frame-pointer'],
+             'env': {'ASAN_OPTIONS': 'hard_rss_limit_mb=4000:detect_leaks=0:allocator_may_return_null=1'},
+             'cases': {'quick': 120, 'thorough': 3000}, 'shards': {'quick': 1, 'thorough': 2}, 'timeout': {'quick': 900, 'thorough': 7200}},
             {'kind': 'fuzz', 'tiers': ['thorough'], 'src': 'C17.cpp', 'configs': ['SE2d', 'SO3d', 'SE3d', 'R3d'], 'rc_tag': '-asanrc',
              'seconds': {'quick': 20, 'thorough': 600}, 'jobs': 4, 'max_len': 4096},
         ],
